@@ -482,3 +482,32 @@ def run(ck):
                       "together with close(fd)" if ok_ else
                       "%s marks the connection NotConnected without closing its socket: the next request connects again and the old socket stays open "
                       "(more connections per host than the configured maximum)" % own.base.replace(E, ""))
+
+    # ---------------- R12: a time-out timer belongs to one connection ----------------
+    ck.rule("C15-R12", "I ownership (type-level)",
+            "the client's Transport files time-out timers under their descriptor with a keep-first insert (timeouts.insert(fd -> "
+            "connection)), which is right only while a timer descriptor is always used by the same connection: every TimerPool is a member "
+            "of a Connection, none is shared between connections (a pool in the Transport or the Client would hand a descriptor to another "
+            "connection while the table still names the first one, and the time-out would be delivered to the wrong request)", 1)
+    owners = []
+    for c_ in prog.class_list:
+        if c_.get("dependent") or not c_["name"].startswith("Pistache::"):
+            continue
+        for x in c_["fields"]:
+            ct = (x.get("ctype") or x["type"]).replace(" ", "")
+            if re.search(r"(^|[<,:])Pistache::TimerPool($|[>,&*])", ct) or ct in ("TimerPool", "Pistache::TimerPool"):
+                owners.append((c_, x))
+    ck.require(owners, "no class holds a TimerPool")
+    for c_, x in owners:
+        okc = c_["name"] == E + "Connection"
+        ck.ob("C15-R12", "type:%s::%s" % (c_["name"].replace("Pistache::", ""), x["name"]), okc, "%s:%s" % (c_["file"], x.get("line") or 0), "",
+              "one pool per connection" if okc else
+              "%s holds a TimerPool: its timers travel between connections while Transport::timeouts keeps the first connection it saw for "
+              "a descriptor" % c_["name"].replace("Pistache::", ""), nontrivial=False)
+
+    # ---------------- facts shared with C04 ----------------
+    ck.borrow("C04", ["C04-R1"], "C15-R11",
+              "a pooled connection whose transfer failed starts its next request with an empty response parser: handleError resets the "
+              "parser on every path, also when no request is in flight (the remote end closing an idle connection after a time-out) -- "
+              "otherwise the bytes of the abandoned response are spliced in front of the next request's answer",
+              key_pred=lambda k: k in ("Connection::handleError/always-resets", "Connection::handleResponsePacket/Done-resets"), min_instances=2)
